@@ -156,9 +156,10 @@ class ObjHolder:
     p: Optional[PreObj] = None
 
 
-class Rec:  # plain class whose registered fields make it recursive or not (recursion analysis is cached too)
-    def __init__(self, v=0, next=None):
-        self.v, self.next = v, next
+@dataclass
+class Rec:  # natively recursive dataclass; registered fields make it flat or recursive again (the recursion analysis is cached too)
+    v: int = 0
+    next: Optional["Rec"] = None
 
 
 rec_fields_flat = [ObjectField("v", int, required=False, default=0)]
@@ -193,6 +194,22 @@ class Dog:
 
 
 PetU = Annotated[Union[Cat, Dog], discriminator("type")]  # discriminator values come from the type names
+
+
+@dataclass
+class LitA:  # its registered fields may carry the discriminator value as a Literal (read through the cached object_fields)
+    x: int = 0
+
+
+@dataclass
+class LitB:
+    y: int = 0
+
+
+LitU = Annotated[Union[LitA, LitB], discriminator("kind")]
+lita_fields_plain = [ObjectField("x", int, required=False, default=0)]
+lita_fields_lit = [ObjectField("kind", Literal["first"], required=False, default="first"), ObjectField("x", int, required=False, default=0)]
+lita_fields_lit2 = [ObjectField("kind", Literal["premier", "first"], required=False, default="premier"), ObjectField("x", int, required=False, default=0)]
 
 
 def tn_factory(tp, *args):
@@ -544,6 +561,7 @@ IMPLS = {
     "pre_from_int": pre_from_int, "pre_to_str": pre_to_str, "pre_to_int": pre_to_int,
     # object fields
     "rec_fields_flat": rec_fields_flat, "rec_fields_rec": rec_fields_rec,
+    "lita_fields_plain": lita_fields_plain, "lita_fields_lit": lita_fields_lit, "lita_fields_lit2": lita_fields_lit2,
     "obj_fields_a": obj_fields_a, "obj_fields_ab": obj_fields_ab, "obj_fields_str": obj_fields_str, "obj_fields_factory": obj_fields_factory,
     # type names
     "tn_factory": tn_factory,
@@ -584,7 +602,7 @@ for _a in ERROR_ATTRS:
 TYPES = {
     "Conv": Conv, "ConvSub": ConvSub, "ConvHolder": ConvHolder, "ConvDC": ConvDC, "PreConv": PreConv, "PreConvHolder": PreConvHolder,
     "Obj": Obj, "ObjDC": ObjDC, "PreObj": PreObj, "ObjHolder": ObjHolder, "Rec": Rec, "RecHolder": RecHolder,
-    "Named": Named, "NamedHolder": NamedHolder, "Cat": Cat, "Dog": Dog, "PetU": PetU,
+    "Named": Named, "NamedHolder": NamedHolder, "Cat": Cat, "Dog": Dog, "PetU": PetU, "LitA": LitA, "LitU": LitU,
     "Sch": Sch, "SchStr": SchStr, "SchDC": SchDC, "SchHolder": SchHolder,
     "Aliased": Aliased, "AliasedHolder": AliasedHolder,
     "Ordered": Ordered, "OrderedHolder": OrderedHolder,
@@ -609,11 +627,13 @@ DATA = {
     "Rec": [{"v": 1, "next": {"v": 2, "next": None}}, {"v": 1}], "RecHolder": [{"r": {"v": 1, "next": {"v": 2}}, "rs": [{"v": 3}]}],
     "Named": [{"x": 1}], "NamedHolder": [{"a": {"x": 1}, "b": {"x": 2}}], "Cat": [{"name": "tom"}],
     "PetU": [{"type": "Cat", "name": "tom"}, {"type": "Kitty", "name": "tom"}, {"type": "P_Cat"}, {"type": "F_Cat"}, {"type": "Dog"}],
+    "LitA": [{"x": 1}, {"kind": "first", "x": 1}],
+    "LitU": [{"kind": "LitA", "x": 1}, {"kind": "first", "x": 1}, {"kind": "premier"}, {"kind": "LitB", "y": 2}],
     "Sch": [-1, 3, 7], "SchStr": ["a", "bcd", "abc"], "SchDC": [{"k": 1}, {}], "SchHolder": [{"s": -1, "l": [7, -2], "t": "b", "d": {}}],
     "Aliased": [{"some_field": 1, "other_field": "y", "fixed": 2}, {"SOME_FIELD": 1, "OTHER_FIELD": "y", "fixed": 2}, {"some-field": 1, "someField": 1}],
     "AliasedHolder": [{"inner": {"some_field": 1}, "own_field": 2}, {"INNER": {"SOME_FIELD": 1}, "OWN_FIELD": 2}, {"inner": {"SOME_FIELD": 1}, "ownField": 3}],
     "Ordered": [{"c": 30, "a": 10}], "OrderedHolder": [{"o": {"b": 5}, "z": 1}],
-    "Validated": [{"a": 1, "b": 0}, {"a": 3, "b": 4}, {"a": 2, "b": 9}], "ValidatedHolder": [{"v": {"a": 1}, "vs": [{"a": 3, "b": 4}, {"a": 2}]}],
+    "Validated": [{"a": 1, "b": 0}, {"a": 3, "b": 4}, {"a": 2, "b": 9}, {"A": 2, "B": 9}], "ValidatedHolder": [{"v": {"a": 1}, "vs": [{"a": 3, "b": 4}, {"a": 2}]}],
     "DepReq": [{"a": 1}, {"b": 1}, {"a": 1, "b": 2}, {"c": 1}], "DepReqHolder": [{"d": {"a": 1}}],
     "Base": [{"kind": "SubA", "x": 1}, {"type": "SubB", "y": "s"}, {"kind": "a", "x": 2}, {"x": 1}],
     "SubA": [{"x": 1}], "BaseHolder": [{"item": {"kind": "SubA", "x": 1}, "items": [{"kind": "b", "y": "t"}, {"type": "SubA"}]}],
@@ -639,6 +659,7 @@ VALUES = {
     "ObjHolder": [lambda: ObjHolder(Obj(1, "x", 2), ObjDC(2), PreObj(3))],
     "Rec": [lambda: Rec(1, Rec(2))], "RecHolder": [lambda: RecHolder(Rec(1, Rec(2)), [Rec(3)])],
     "Named": [lambda: Named(1)], "NamedHolder": [lambda: NamedHolder(Named(1), Named(2))], "PetU": [lambda: Cat("tom"), lambda: Dog("rex")],
+    "LitA": [lambda: LitA(1)], "LitU": [lambda: LitA(1), lambda: LitB(2)],
     "Sch": [lambda: 3], "SchHolder": [lambda: SchHolder(Sch(1), [Sch(2)])], "SchDC": [lambda: SchDC(1)],
     "Aliased": [_aliased], "AliasedHolder": [lambda: AliasedHolder(_aliased(), 2)],
     "Ordered": [lambda: Ordered()], "OrderedHolder": [lambda: OrderedHolder(Ordered(), 1)],
@@ -697,6 +718,8 @@ def _ops():
         add(["PreObj", "ObjHolder"], op="set_object_fields", target="PreObj", impl=impl)
     for impl in ("rec_fields_flat", "rec_fields_rec", None):
         add(["Rec", "RecHolder"], op="set_object_fields", target="Rec", impl=impl)
+    for impl in ("lita_fields_plain", "lita_fields_lit", "lita_fields_lit2", None):
+        add(["LitU", "LitA"], op="set_object_fields", target="LitA", impl=impl)
     # --- type names
     for target, types in (("Named", ["Named", "NamedHolder"]), ("Cat", ["PetU", "Cat"]), ("SubA", ["Base", "UnionSub", "BaseHolder"])):
         add(types, op="type_name", target=target, v={"Named": "Renamed", "Cat": "Kitty", "SubA": "a"}[target])
@@ -713,6 +736,8 @@ def _ops():
     for impl in ("upper_aliaser", "dash_aliaser", "identity_aliaser"):
         add(["Aliased", "AliasedHolder"], op="alias", target="Aliased", impl=impl)
     add(["AliasedHolder"], op="alias", target="AliasedHolder", impl="upper_aliaser")
+    for impl in ("upper_aliaser", "identity_aliaser"):
+        add(["Validated", "ValidatedHolder"], op="alias", target="Validated", impl=impl)
     # --- order overriding
     for impl in ("order_cab", "order_bca", "order_a_last", "order_c_first", "order_none"):
         add(["Ordered", "OrderedHolder"], op="order", target="Ordered", impl=impl)
